@@ -87,7 +87,18 @@ def signature(a, b, verdict):
         if x.startswith("ovl="): ovl = x[4:]
     gc = fa["gc"] or fb["gc"]
     coarse = "matrix" if cls.startswith("matrix") else ("pred" if cls in ("pred", "pred-prepared", "pattern") else cls)
+    mixed = False
+    if gc and coarse == "matrix":
+        # The recorded family "RelateNG deviates from its union semantics for collections" needs a collection whose elements share
+        # points.  A collection of pairwise disjoint elements is not in that family: it is keyed like a non-collection, plus — for
+        # mixed-dimension collections, which have defects of their own — the matrix entries that differ (A's row letter first).
+        if not (gtok.gc_self_interaction(a) or gtok.gc_self_interaction(b)):
+            gc = False
+            mixed = fa["mixedDim"] or fb["mixedDim"]
     sig = {"class": coarse, "gc": gc}
+    if mixed:
+        sig["mixedDimCollection"] = True
+        sig["entries"] = detail
     if coarse == "pred":
         sig["emptyElem"] = fa["emptyElem"] or fb["emptyElem"]
     if not gc:
